@@ -226,6 +226,16 @@ func CrashForms() []Form {
 		c("select_default", "ch := make(chan uint64)\nselect {\ncase v := <-ch:\n\tr = v\ndefault:\n\tr = x\n}"),
 		c("defer_closure", "defer func() {\n\tr = 1\n}()\nr = x"),
 		c("label_unused_loop", "lbl:\n\tfor i := uint64(0); i < 2; i++ {\n\t\tr += i\n\t\tcontinue lbl\n\t}"),
+		// empty and degenerate declaration groups, user functions shadowing builtins, function-typed fields
+		c("empty_var_group", "var ()\nr = x"),
+		c("empty_const_group", "const ()\nr = x"),
+		c("empty_type_group", "type ()\nr = x"),
+		cd("toplevel_empty_type_group", "type ()\n", "r = x"),
+		cd("toplevel_type_group_two", "type (\n\tTG1 struct {\n\t\tv uint64\n\t}\n\tTG2 struct {\n\t\tv uint64\n\t}\n)\n", "q := TG1{v: x}\nr = q.v"),
+		cd("promoted_func_field_call", "type PF0 struct {\n\tf func() uint64\n}\n\ntype PF1 struct {\n\tPF0\n}\n", "o := PF1{}\nif o.f != nil {\n\tr = o.f()\n}"),
+		c("anon_struct_func_field_call", "var an struct {\n\tf func() uint64\n}\nif an.f != nil {\n\tr = an.f()\n}"),
+		cd("func_field_ptr_call", "type FF struct {\n\tf func(uint64) uint64\n}\n", "o := &FF{f: mkAdder(1)}\nr = o.f(x)"),
+		cd("method_value_of_embedded", "type EB0 struct {\n\tv uint64\n}\n\nfunc (e EB0) get() uint64 {\n\treturn e.v\n}\n\ntype EB1 struct {\n\tEB0\n}\n", "o := EB1{}\nr = o.get()"),
 		c("nested_func_literal_call_arg", "r = apply(func(z uint64) uint64 {\n\tfn := func() uint64 {\n\t\treturn z\n\t}\n\treturn fn()\n}, x)"),
 	}
 }
